@@ -483,6 +483,8 @@ func (r *cqlRun) collCase(c cqlCase) {
 	}
 	var mapnSame func(dest interface{}) bool
 	mapnPlain := false
+	// a destination the caller has used before (a slice reused from row to row): same type, already populated
+	var usedDest func() interface{}
 	var els []el
 	for _, e := range c.Elems {
 		b, null := elemBytes(e)
@@ -508,6 +510,14 @@ func (r *cqlRun) collCase(c cqlCase) {
 		}
 		sources = []interface{}{ptrs, ifs, &ptrs}
 		newDest = func() interface{} { var d []*int32; return &d }
+		usedDest = func() interface{} {
+			d := make([]*int32, 0, len(ptrs)+2)
+			for i := 0; i < len(ptrs)+1; i++ {
+				x := int32(90 + i)
+				d = append(d, &x)
+			}
+			return &d
+		}
 		same = func(dest interface{}) bool {
 			d := *dest.(*[]*int32)
 			if len(d) != len(ptrs) {
@@ -652,6 +662,7 @@ func (r *cqlRun) collCase(c cqlCase) {
 			codec, err = datacodec.NewTuple(datatype.NewTuple(datatype.Int, datatype.Varchar))
 			sources = []interface{}{fields}
 			newDest = func() interface{} { var d []interface{}; return &d }
+			usedDest = func() interface{} { d := []interface{}{int32(91), "used"}; return &d }
 			same = func(dest interface{}) bool { return reflect.DeepEqual(*dest.(*[]interface{}), fields) }
 		} else {
 			udt, _ := datatype.NewUserDefined("ks", "t", []string{"a", "b"}, []datatype.DataType{datatype.Int, datatype.Varchar})
@@ -732,6 +743,15 @@ func (r *cqlRun) collCase(c cqlCase) {
 			r.bad("C11,C12,C14", "coll-decode-value|"+c.Kind, fmt.Sprintf("%s: % x decoded to %s (wasNull=%v)", tag, want, describe(dest), wasNull), c)
 		} else {
 			r.distinct["coll-dec/"+tag] = true
+		}
+		if usedDest != nil {
+			// slices are resized and overwritten element by element (unlike maps, which keep their entries): a null
+			// element must come out as the zero value whatever the slot held before
+			dest := usedDest()
+			r.rep.Evaluations++
+			if wasNull, err, p := safeDecode(codec, want, dest, v); p != "" || err != nil || wasNull || !same(dest) {
+				r.bad("C11,C14", "coll-decode-used-dest|"+c.Kind, fmt.Sprintf("%s: % x decoded into an already populated slice gave %s (wasNull=%v err=%v %s)", tag, want, describe(dest), wasNull, err, p), c)
+			}
 		}
 		// untyped destination: must not panic, must keep nulls
 		var x interface{}
